@@ -14,8 +14,10 @@ import (
 	"fmt"
 	"io"
 	"os"
+	"runtime"
 	"strings"
 	"sync"
+	"sync/atomic"
 	"time"
 
 	"github.com/formancehq/ledger/internal/engine/command"
@@ -44,6 +46,18 @@ type input struct {
 	Accounts int       `json:"accounts"`
 	Reqs     []reqSpec `json:"reqs"`
 	Sched    []act     `json:"sched"`
+	// a hit of the free-running stress search (not a deterministic schedule): seed, round in which it showed
+	Stress *stressHit `json:"stress,omitempty"`
+}
+
+type stressHit struct {
+	Seed       uint64 `json:"seed"`
+	Round      int    `json:"round"`
+	Rounds     int    `json:"rounds"`
+	Workers    int    `json:"workers"`
+	Iterations int    `json:"iterations_per_worker_per_round"`
+	LockCalls  int64  `json:"lock_calls_until_hit"`
+	Note       string `json:"note"`
 }
 
 // ---- one execution ---------------------------------------------------------------------------------------
@@ -118,6 +132,13 @@ var discardLogger = func() logging.Logger {
 
 var stallTimeout = 10 * time.Second
 
+// size of the stress search: rounds x GOMAXPROCS workers x stressIters Lock calls
+const (
+	stressIters          = 400
+	stressRoundsQuick    = 40
+	stressRoundsThorough = 600
+)
+
 func accName(a int) string { return fmt.Sprintf("acc:%d", a) }
 func accNames(as []int) []string {
 	out := make([]string, 0, len(as))
@@ -131,6 +152,9 @@ func accNames(as []int) []string {
 func handler(ctx context.Context, point string, kv ...any) {
 	rc, _ := ctx.Value(reqCtxKey{}).(*reqCtx)
 	if rc == nil {
+		if st, _ := ctx.Value(stressCtxKey{}).(*stressRound); st != nil {
+			st.yield(point)
+		}
 		return
 	}
 	e := rc.e
@@ -860,15 +884,292 @@ func curated() (progs [][]reqSpec, naccs []int) {
 	return
 }
 
+// ---- free-running stress search ----------------------------------------------------------------------------
+// No scheduler: the workers run on all cores and the handler never parks anybody. It only perturbs timing at
+// the yield points, and the logger handed to the locker through the context (lock.go logs "Unlock accounts",
+// "Lock acquired", "Intent lock" while it holds its mutex) stretches the critical section of a release by a
+// few microseconds. This reaches interleavings inside regions that contain no yield point (a goroutine blocked
+// on the locker mutex while a releasing holder grants). It is a SEARCH: which interleavings happen depends on
+// the Go scheduler, a miss proves nothing, a hit is a real violation observed on the real code.
+
+type stressCtxKey struct{}
+
+var stressCtr uint64
+
+func stressRand() uint64 {
+	z := atomic.AddUint64(&stressCtr, 0x9E3779B97F4A7C15)
+	z = (z ^ (z >> 30)) * 0xBF58476D1CE4E5B9
+	z = (z ^ (z >> 27)) * 0x94D049BB133111EB
+	return z ^ (z >> 31)
+}
+
+func spinFor(d time.Duration) {
+	t := time.Now()
+	for time.Since(t) < d {
+	}
+}
+
+type stressRound struct {
+	slots []atomic.Pointer[context.CancelFunc] // the cancel functions of the calls in flight, one per worker
+}
+
+func (st *stressRound) cancelSome(n int) {
+	for i := 0; i < n; i++ {
+		if c := st.slots[int(stressRand()%uint64(len(st.slots)))].Load(); c != nil {
+			(*c)()
+		}
+	}
+}
+
+func (st *stressRound) yield(point string) {
+	x := stressRand()
+	switch point {
+	case "lock.release":
+		// cancellation right around a release
+		if x&3 != 0 {
+			st.cancelSome(1 + int(x>>8)%3)
+		}
+	case "lock.select.done":
+		switch x & 3 {
+		case 0:
+			runtime.Gosched()
+		case 1:
+			spinFor(time.Duration(x>>8%8) * time.Microsecond)
+		}
+	case "lock.grant":
+		// under the locker mutex: a short delay only
+		if x&1 == 0 {
+			spinFor(time.Duration(x>>8%6) * time.Microsecond)
+		}
+	case "lock.enqueued":
+		if x&7 == 0 {
+			runtime.Gosched()
+		}
+	}
+}
+
+// the logger the locker finds in the context: silent; "Unlock accounts" is logged by intent.unlock under the
+// locker mutex, between giving the accounts back and recheck
+type stressLogger struct{ st *stressRound }
+
+func (l stressLogger) Debugf(f string, args ...any) {
+	if f == "Unlock accounts" {
+		x := stressRand()
+		if x&1 == 0 {
+			l.st.cancelSome(1)
+		}
+		spinFor(time.Duration(2+x>>8%12) * time.Microsecond)
+	}
+}
+func (l stressLogger) Infof(string, ...any)                       {}
+func (l stressLogger) Errorf(string, ...any)                      {}
+func (l stressLogger) Debug(...any)                               {}
+func (l stressLogger) Info(...any)                                {}
+func (l stressLogger) Error(...any)                               {}
+func (l stressLogger) WithFields(map[string]any) logging.Logger   { return l }
+func (l stressLogger) WithField(string, any) logging.Logger       { return l }
+func (l stressLogger) WithContext(context.Context) logging.Logger { return l }
+
+type stressResult struct {
+	calls, errs, rounds int64
+	fails               []failure
+	hit                 *stressHit
+}
+
+// rounds x workers x iters Lock calls on a fresh locker per round; after each round every account is probed
+func stress(r *vx.Run, seed uint64, rounds, workers, iters int) stressResult {
+	var res stressResult
+	const nacc = 3
+	var calls, errs atomic.Int64
+	for round := 0; round < rounds && res.hit == nil; round++ {
+		locker := command.NewDefaultLocker()
+		st := &stressRound{slots: make([]atomic.Pointer[context.CancelFunc], workers)}
+		base := logging.ContextWithLogger(context.Background(), stressLogger{st})
+		base = context.WithValue(base, stressCtxKey{}, st)
+		parent, cancelAll := context.WithCancel(base)
+		var readers, writers [nacc]atomic.Int32
+		var exclFail, errFail atomic.Pointer[string]
+		var progress atomic.Int64
+		var wg sync.WaitGroup
+		for w := 0; w < workers; w++ {
+			wg.Add(1)
+			go func(w int) {
+				defer wg.Done()
+				g := vx.NewRng(seed*7919 + uint64(round)*1000003 + uint64(w))
+				used := 2 + g.Intn(2) // this worker works on 2 or 3 accounts
+				for it := 0; it < iters; it++ {
+					var rd, wr []int
+					switch g.Intn(6) {
+					case 0:
+						rd = []int{g.Intn(used)}
+					case 1:
+						rd = []int{g.Intn(used), g.Intn(used)}
+					case 2, 3:
+						wr = []int{g.Intn(used)}
+					case 4: // as the commander: sources are read and written
+						a := g.Intn(used)
+						rd, wr = []int{a, g.Intn(used)}, []int{a}
+					default:
+						wr = []int{g.Intn(used), g.Intn(used)}
+					}
+					ctx, cancel := context.WithCancel(parent)
+					mode := g.Intn(8)
+					switch {
+					case mode == 0: // already cancelled
+						cancel()
+					case mode <= 5: // may be cancelled by anybody at any moment (releasers, other workers)
+						st.slots[w].Store(&cancel)
+					}
+					if g.Chance(1, 4) {
+						st.cancelSome(1)
+					}
+					calls.Add(1)
+					unlock, err := locker.Lock(ctx, command.Accounts{Read: accNames(rd), Write: accNames(wr)})
+					st.slots[w].Store(nil)
+					if err != nil {
+						errs.Add(1)
+						if ctx.Err() == nil {
+							m := fmt.Sprintf("round %d worker %d iteration %d: Lock returned %q although its context is not cancelled", round, w, it, err.Error())
+							errFail.CompareAndSwap(nil, &m)
+						}
+						cancel()
+						progress.Add(1)
+						continue
+					}
+					// critical section: per-account counters
+					inW := func(a int) bool {
+						for _, x := range wr {
+							if x == a {
+								return true
+							}
+						}
+						return false
+					}
+					seenW := map[int]bool{}
+					for _, a := range wr {
+						if seenW[a] {
+							continue
+						}
+						seenW[a] = true
+						if n := writers[a].Add(1); n != 1 || readers[a].Load() != 0 {
+							m := fmt.Sprintf("round %d worker %d iteration %d: write holder of account %d sees %d writers and %d readers", round, w, it, a, n, readers[a].Load())
+							exclFail.CompareAndSwap(nil, &m)
+						}
+					}
+					for _, a := range rd {
+						if inW(a) {
+							continue
+						}
+						readers[a].Add(1)
+						if n := writers[a].Load(); n != 0 {
+							m := fmt.Sprintf("round %d worker %d iteration %d: read holder of account %d sees %d writers", round, w, it, a, n)
+							exclFail.CompareAndSwap(nil, &m)
+						}
+					}
+					if g.Chance(1, 3) {
+						runtime.Gosched()
+					}
+					for _, a := range rd {
+						if !inW(a) {
+							readers[a].Add(-1)
+						}
+					}
+					for a := range seenW {
+						writers[a].Add(-1)
+					}
+					unlock(ctx)
+					cancel()
+					progress.Add(1)
+				}
+			}(w)
+		}
+		done := make(chan struct{})
+		go func() { wg.Wait(); close(done) }()
+		// the run is bounded by iterations; the clock only notices that nothing moves any more (a leaked lock
+		// blocks every uncancelled request for ever): then everything outstanding is cancelled and the probe decides
+		stuck := false
+		last, idle := int64(-1), 0
+	waitLoop:
+		for {
+			select {
+			case <-done:
+				break waitLoop
+			case <-time.After(500 * time.Millisecond):
+				if p := progress.Load(); p == last {
+					idle++
+					if idle >= 6 {
+						stuck = true
+						cancelAll()
+						idle = -1000000
+					}
+				} else {
+					last, idle = p, 0
+				}
+			}
+		}
+		cancelAll()
+		res.rounds++
+		if m := exclFail.Load(); m != nil {
+			res.fails = append(res.fails, failure{"exclusion:stress:conflicting-holders", *m})
+		}
+		if m := errFail.Load(); m != nil {
+			res.fails = append(res.fails, failure{"cancel:stress:error-without-cancel", *m})
+		}
+		// every holder has released, every failed call has returned: each account must be free
+		for a := 0; a < nacc; a++ {
+			free := false
+			for _, d := range []time.Duration{2 * time.Second, 10 * time.Second} {
+				pctx, pcancel := context.WithTimeout(logging.ContextWithLogger(context.Background(), discardLogger), d)
+				unlock, err := locker.Lock(pctx, command.Accounts{Write: []string{accName(a)}})
+				pcancel()
+				if err == nil {
+					unlock(context.Background())
+					free = true
+					break
+				}
+			}
+			if !free {
+				res.fails = append(res.fails, failure{"leak:stress:failed-request-kept-its-lock",
+					fmt.Sprintf("stress round %d (seed %d, %d workers x %d iterations, %d Lock calls so far, workers stuck: %v): all workers are done, every successful Lock was released, but a fresh write lock on account %d is not granted within 2 s and again 10 s", round, seed, workers, iters, calls.Load(), stuck, a)})
+				break
+			}
+		}
+		if len(res.fails) > 0 {
+			res.hit = &stressHit{Seed: seed, Round: round, Rounds: rounds, Workers: workers, Iterations: iters, LockCalls: calls.Load(),
+				Note: "free-running stress search: the interleaving is chosen by the Go scheduler; re-running with the same seed reproduces the workload, not necessarily the interleaving"}
+		}
+	}
+	res.calls, res.errs = calls.Load(), errs.Load()
+	return res
+}
+
+func runStress(r *vx.Run, seed uint64, rounds, workers, iters int) {
+	t0 := time.Now()
+	res := stress(r, seed, rounds, workers, iters)
+	r.Sum.Distribution["stress:lock-calls"] += int(res.calls)
+	r.Sum.Distribution["stress:lock-calls-that-returned-an-error"] += int(res.errs)
+	r.Sum.Distribution["stress:rounds"] += int(res.rounds)
+	r.Sum.Notes = append(r.Sum.Notes, fmt.Sprintf("stress search (non-deterministic): %d rounds x %d workers x %d iterations, %d Lock calls, %d cancelled, %.1fs, GOMAXPROCS=%d",
+		res.rounds, workers, iters, res.calls, res.errs, time.Since(t0).Seconds(), runtime.GOMAXPROCS(0)))
+	for _, f := range res.fails {
+		r.FailP("C15", f.sig, input{Stress: res.hit}, f.detail, 1000)
+	}
+}
+
 func main() {
 	r := vx.Start("C15", "lock")
 	verifhook.SetHandler(handler)
 	r.Cases("From FL Require Import Lock.Model.\n", "list (action * sobs) * list status * list N * bool", 300)
-	r.Sum.Rule = "schedules of the real DefaultLocker under the yield-point scheduler: programs of 2-5 Lock requests (read/write lists over 1-3 accounts, duplicates and read+write of one account included, contexts cancelled before/while waiting/after a grant) x every order of start, release, cancel, wake (either select branch), abort; exhaustive depth-first for the curated programs, seeded random otherwise; then drain and a write-lock probe on every account; non-trivial = at least one request had to wait in the queue; distinct by program + executed trace"
+	r.Sum.Rule = "schedules of the real DefaultLocker under the yield-point scheduler: programs of 2-5 Lock requests (read/write lists over 1-3 accounts, duplicates and read+write of one account included, contexts cancelled before/while waiting/after a grant) x every order of start, release, cancel, wake (either select branch), abort; exhaustive depth-first for the curated programs, seeded random otherwise; then drain and a write-lock probe on every account; non-trivial = at least one request had to wait in the queue; distinct by program + executed trace. PLUS a free-running stress SEARCH (non-deterministic, not part of the tie, no Coq cases): all cores loop over Lock/unlock with random read/write lists over 2-3 accounts and contexts cancelled at random moments, already cancelled, and right around a release; the hooks only perturb timing; fixed number of iterations; oracle: per-account holder counters, and after each round a fresh write lock on every account within 2 s; a hit is a real violation, a miss proves nothing"
 	rn := &runner{r: r, seen: map[string]bool{}}
 	docs, replayOnly := r.Inputs()
 	for _, d := range docs {
 		var in input
+		if err := json.Unmarshal(d, &in); err == nil && in.Stress != nil && replayOnly {
+			h := in.Stress
+			runStress(r, h.Seed, h.Rounds, h.Workers, h.Iterations)
+			continue
+		}
 		if err := json.Unmarshal(d, &in); err == nil && len(in.Reqs) > 0 {
 			if in.Accounts <= 0 {
 				in.Accounts = 1
@@ -905,6 +1206,16 @@ func main() {
 			prog = append(prog, genReq(g, nacc))
 		}
 		rn.random(nacc, prog, perProg, g.Fork())
+	}
+	// second part: the free-running stress search (sized by iterations, not by the clock)
+	workers := runtime.GOMAXPROCS(0)
+	if workers < 4 {
+		workers = 4
+	}
+	if r.Thorough() {
+		runStress(r, r.Seed, stressRoundsThorough, workers, stressIters)
+	} else {
+		runStress(r, r.Seed, stressRoundsQuick, workers, stressIters)
 	}
 	r.Sum.Exhaustive = false
 	r.Sum.Notes = append(r.Sum.Notes, fmt.Sprintf("curated programs enumerated completely: %d of %d (limit %d schedules each)", complete, len(progs), dfsLimit))
